@@ -814,6 +814,30 @@ func (rn *runner) proposal(v, c *tmconsensus.VersionedRoundView, H uint64, R uin
 			}
 		}
 	}
+	if variant == 0 && c.Height > 0 && w.r.chance(4, 5) {
+		// a careful proposer only carries the precommits for the committed block
+		main := c.VoteSummary.MostVotedPrecommitHash
+		for k := range pcp.Proofs {
+			if k != main {
+				delete(pcp.Proofs, k)
+			}
+		}
+	}
+	if variant == 0 && h == H && c.Height+1 == h && c.Height > 0 && w.r.chance(1, 3) {
+		// an honest proposer that saw more precommits for the committed block than we did
+		main := c.VoteSummary.MostVotedPrecommitHash
+		vsC := rn.valsFor(c.Height)
+		have := map[string]bool{}
+		for _, s := range pcp.Proofs[main] {
+			have[string(s.KeyID)] = true
+		}
+		for i := range vsC.keys {
+			if !have[string(keyID16(i))] && w.r.chance(2, 3) {
+				pcp.Proofs[main] = append(pcp.Proofs[main], rn.mkSigs(vsC, kindPrecommit, c.Height, pcp.Round, main, []int{i}, 0)...)
+				rn.stats["backfill_extra_sig"]++
+			}
+		}
+	}
 	if variant == 10 { // tampered commit proof: drop signatures / add a foreign entry / junk signature
 		switch w.r.below(3) {
 		case 0:
